@@ -531,3 +531,88 @@ def gen_async(seed: int, tier: str = "quick") -> Dict[str, Any]:
            "order_seed": None, "iteration_cost": rng.choice([0.0, 1e-5])}
     return {"groups": [None], "sims": sims, "conns": conns, "until": rng.choice([2, 3, 4, 5, 6, 8]),
             "config": cfg, "illegal_async": illegal}
+
+
+# ---------------------------------------------------------------------------------
+# C17: real-time scenarios on the virtual clock
+def gen_rt(seed: int, tier: str = "quick") -> Dict[str, Any]:
+    rng = random.Random(sub_seed(seed, "rt"))
+    dyadic = rng.random() < 0.8
+    f = rng.choice([0.25, 0.5, 1.0, 2.0]) if dyadic else rng.choice([0.1, 0.3])
+    tr = rng.choice([0.5, 1.0, 2.0]) if dyadic else rng.choice([1.0, 0.1])
+    n = rng.choice([1, 2, 2, 3])
+    use_groups = rng.random() < 0.3
+    groups = [None, 0] if use_groups else [None]
+    sims = []
+    for i in range(n):
+        typ = rng.choice(["time-based", "time-based", "hybrid", "event-based"])
+        s = {"sid": f"S{i}", "type": typ, "group": rng.randrange(len(groups)), "n_ent": 1,
+             "meta_style": 0, "transport": rng.choice(["gated", "gated", "stock", "remote", "cmd"]),
+             "beh": gen_beh(rng, typ, {"future": False, "react": False})}
+        if typ == "time-based":
+            s["beh"]["step_sizes"] = [rng.choice([1, 1, 2])]
+            s["beh"]["vary"] = False
+        if typ == "event-based":
+            s["init_event"] = rng.choice([None, 0, 1])
+        sims.append(s)
+    conns = []
+    for _ in range(rng.choice([0, 1, 1, 2])):
+        if n < 2:
+            break
+        a, b = rng.sample(range(n), 2)
+        ua = rng.choice(OUTS[sims[a]["type"]])
+        va = rng.choice(INS[sims[b]["type"]])
+        if any(c["src"] == a and c["dst"] == b and c["pairs"][0][1] == va for c in conns):
+            continue
+        shift = rng.choice([0, 0, 1])
+        c = {"src": a, "se": 0, "dst": b, "de": 0, "pairs": [[ua, va]], "shift": shift, "weak": False}
+        if shift and va == "m_in":
+            c["init"] = {ua: f"init{len(conns)}"}
+        conns.append(c)
+    until = rng.choice([2, 3, 4, 5, 6])
+    period = f * tr
+    # external events from remote stubs
+    ev_mode = rng.random()
+    for s in sims:
+        if s["transport"] in ("remote", "cmd") and ev_mode < 0.6 and s["type"] != "time-based":
+            evs = []
+            at = 0.0
+            for _ in range(rng.choice([1, 2, 3])):
+                at += period * rng.choice([0.25, 0.5, 1.0, 1.5])
+                k = rng.choice(["future", "future", "future", "until", "beyond"])
+                if k == "future":
+                    evs.append({"at": at, "kind": "future", "dt": rng.choice([0, 0, 1, 2])})
+                else:
+                    evs.append({"at": at, "kind": k, "t": until if k == "until" else until + 2})
+            s["events"] = evs
+            s["set_events"] = True
+    durations = rng.choice([[0.0], [0.0], [0.0, period / 4], [0.0, period / 4, period / 2],
+                            [0.0, period / 2, period, 3 * period]])
+    sched = {"profile": "uniform", "seed": rng.randrange(1 << 30), "unit": 1.0, "choices": durations}
+    import math
+    for s in sims:
+        if s.get("events"):
+            s["rt"] = {"period": period, "until": until,
+                       "margin": 2 + math.ceil(max(durations) / period)}
+    # durations apply to setup_done/step/get_data, not to the init/create handshake (a slow
+    # handshake legitimately runs into start_timeout)
+    zeroed = []
+    for i, s in enumerate(sims):
+        for nm in (s["sid"], f"node{i}"):
+            for o in (0, 1, 2):
+                zeroed += [f"{nm}/{o}/xreq", f"{nm}/{o}/xrep"]
+    sched["zeroed"] = zeroed
+    if durations != [0.0] and rng.random() < 0.3:
+        s = rng.choice(sims)
+        if s["transport"] in ("remote", "cmd"):
+            sched["overrides"] = {f"{s['sid']}/{rng.choice([4, 5, 6])}/xrep": 5 * period}
+        else:
+            sched["overrides"] = {f"{s['sid']}/{rng.choice([1, 2, 3])}/rep": 5 * period}   # one long stall
+    rt_on = rng.random() < 0.9
+    cfg = {"cache": rng.random() < 0.5, "lazy": rng.random() < 0.7, "debug": False, "mli": 100,
+           "start_seed": None, "connect_seed": None, "order_seed": None, "iteration_cost": 0.0,
+           "time_resolution": tr, "rt_factor": f if rt_on else None, "rt_strict": rng.random() < 0.3}
+    sc = {"groups": groups, "sims": sims, "conns": conns, "until": until, "config": cfg,
+          "rt": {"f": f, "tr": tr, "dyadic": dyadic, "durations": durations}}
+    repair_cycles(sc, rng)
+    return {"scenario": sc, "schedule": sched}
